@@ -39,6 +39,14 @@ def run(ctx) -> None:
              "passes to the array operation (_stack, expand_dims, squeeze, _reduction, swapaxes, moveaxis, concatenate)")
     ctx.rule("R-TWIN", "lazy and eager arms of the structural operations call the same array function with the same "
              "arguments (see sa/rules/twins.py)")
+    ctx.rule("R-AXISNORM", "squeeze and _reduction interpret a negative user axis like NumPy does, against the *full* "
+             "array: every normalisation of the axis argument (normalize_axes(axis, S) or the idiom `a if a >= 0 else "
+             "len(S) + a`) uses S == self.shape / self.array.shape, never the ensemble part only — otherwise "
+             "squeeze((-1,)) addresses an ensemble axis although -1 is a base axis")
+    ctx.rule("R-ITEMMETA", "indexing carries the metadata of the selected items into the *new* object only: "
+             "_get_ensemble_axes_metadata_items / get_items never write the receiver's metadata, array or axes list "
+             "(directly or through a local alias), and the metadata dict they return depends on "
+             "axis.item_metadata(item, ...) of every integer-indexed axis")
     ctx.undecided("that numpy/dask implement stack/concatenate/moveaxis identically; value equality with NumPy")
 
     ao = repo.cls(ARR, "ArrayObject")
@@ -318,6 +326,63 @@ def run(ctx) -> None:
     ctx.check(len(ax) == 1 and idx == ax and len(subs_) >= 3, "R-LOCKSTEP", cc.qualname, cc.where,
               f"array and metadata concatenated along `{ax}`",
               f"array concatenated along {sorted(ax)} but metadata indexed with {sorted(idx)}", key_detail="")
+
+    # ---------------- R-AXISNORM
+    FULL = ("self.shape", "self.array.shape", "self._array.shape")
+    n_norm = 0
+    for mname in ("squeeze", "_reduction"):
+        fn = repo.method(ARR, "ArrayObject", mname)
+        sites = []
+        for c in walk_no_nested(fn.node):
+            if isinstance(c, ast.Call) and call_name(c) == "normalize_axes" and len(c.args) >= 2:
+                sites.append((c, c.args[1]))
+            if isinstance(c, ast.IfExp) and isinstance(c.test, ast.Compare) and isinstance(c.test.ops[0], (ast.GtE, ast.Lt)):
+                for arm in (c.body, c.orelse):
+                    if isinstance(arm, ast.BinOp) and isinstance(arm.op, ast.Add):
+                        for side in (arm.left, arm.right):
+                            if isinstance(side, ast.Call) and call_name(side) == "len" and side.args:
+                                sites.append((c, side.args[0]))
+        ctx.require(sites, f"{fn.qualname}: no normalisation of the axis argument found")
+        for c, shape_expr in sites:
+            n_norm += 1
+            d = dotted(shape_expr)
+            if d is None or not d.startswith("self."):
+                # a local: follow its single definition
+                dfn = DataFlow(fn.node)
+                stn = _stmt_of(fn.node, c)
+                dd = dfn.single_def(dfn.cfg.node_of(stn).idx, d) if d else None
+                shown = norm_text(dd.value) if dd is not None and dd.value is not None else norm_text(shape_expr)
+                good = dd is not None and dd.value is not None and dotted(dd.value) in FULL
+            else:
+                shown, good = d, d in FULL
+            ctx.check(good, "R-AXISNORM", f"{fn.qualname}:axis normalised against the full shape", fn.loc(c),
+                      f"negative axes count from the end of {shown}",
+                      f"the axis argument is normalised against `{shown[:60]}`, not the full array shape: a negative axis "
+                      "addresses a different dimension than in NumPy (base axes can be hit, ensemble axes missed)",
+                      key_detail="axisnorm")
+
+    # ---------------- R-ITEMMETA
+    from .c32 import receiver_writes
+
+    gi = repo.method(ARR, "ArrayObject", "_get_ensemble_axes_metadata_items")
+    for fn in (gi, repo.method(ARR, "ArrayObject", "get_items")):
+        ws = receiver_writes(fn)
+        ctx.check(not ws, "R-ITEMMETA", f"{fn.qualname}:receiver untouched", fn.loc(ws[0]) if ws else fn.where,
+                  "no write to the indexed object's metadata / array / axes list",
+                  f"`{norm_text(ws[0])[:90]}` writes the indexed object's own state: a later index operation on the "
+                  "same object sees (and accumulates) the item metadata of an earlier one" if ws else "",
+                  key_detail="receiver")
+    rets = [r for r in walk_no_nested(gi.node) if isinstance(r, ast.Return) and r.value is not None]
+    ctx.require(len(rets) == 1 and isinstance(rets[0].value, ast.Tuple) and len(rets[0].value.elts) == 2,
+                f"{gi.qualname}: expected `return axes_metadata, metadata`")
+    dfi = DataFlow(gi.node)
+    sl = dfi.backward_slice(dfi.cfg.node_of(rets[0]).idx, rets[0].value.elts[1])
+    item_calls = [c for n_ in sl.def_nodes for c in ast.walk(dfi.cfg.nodes[n_].ast)
+                  if isinstance(c, ast.Call) and isinstance(c.func, ast.Attribute) and c.func.attr == "item_metadata"]
+    ctx.check(bool(item_calls), "R-ITEMMETA", f"{gi.qualname}:item metadata returned", gi.loc(rets[0]),
+              "returned metadata depends on axis.item_metadata(item, ...)",
+              "the returned metadata does not depend on axis.item_metadata(...): the metadata of the selected items "
+              "is dropped", key_detail="item-metadata")
 
     # ---------------- R-TWIN for array.py
     n = twins.check_package(ctx, modules={ARR})
